@@ -116,3 +116,9 @@ Example C20_searchsorted_hyps_satisfiable :
 Proof.
   split; [repeat constructor; simpl; Lra.lra | simpl; Lra.lra].
 Qed.
+
+(* the log-abs-det helper hands back torch.slogdet's log-magnitude unchanged (it never forms the determinant, which leaves the
+   floating-point range long before its logarithm does); torch.slogdet's own contract is trusted, see the trusted base *)
+Theorem C20_logabsdet_is_the_log_magnitude_of_slogdet : utils_logabsdet_is_slogdet = true.
+Proof. reflexivity. Qed.
+Print Assumptions C20_logabsdet_is_the_log_magnitude_of_slogdet.
